@@ -115,7 +115,7 @@ func Sanitize(c *core.Ctx, rule string, p *packages.Package) {
 								return true
 							}
 							// v, ok := s.Unapply() / v, ok := m[k]: v names a part of the input, ok is a flag
-							if len(as.Lhs) == 2 && len(as.Rhs) == 1 && as.Tok == token.DEFINE {
+							if len(as.Lhs) >= 2 && len(as.Rhs) == 1 && as.Tok == token.DEFINE {
 								r := ast.Unparen(as.Rhs[0])
 								inner := r
 								if call, ok := r.(*ast.CallExpr); ok && len(call.Args) == 0 {
@@ -124,10 +124,17 @@ func Sanitize(c *core.Ctx, rule string, p *packages.Package) {
 									}
 								}
 								if root, _ := accessorPath(info, inner, roots); root != nil {
-									if o := objOf(info, as.Lhs[0]); o != nil && !roots[o] {
-										roots[o] = true
-										aliasDefs[as.Rhs[0]] = true
-										changed = true
+									// v, ok := s.Unapply() names one part and a flag; i1, …, iN := t.Unapply() names N parts
+									parts := as.Lhs[:1]
+									if len(as.Lhs) > 2 {
+										parts = as.Lhs
+									}
+									for _, l := range parts {
+										if o := objOf(info, l); o != nil && !roots[o] {
+											roots[o] = true
+											aliasDefs[as.Rhs[0]] = true
+											changed = true
+										}
 									}
 								}
 								return true
@@ -252,6 +259,15 @@ func Sanitize(c *core.Ctx, rule string, p *packages.Package) {
 										}
 									}
 									return
+								}
+							}
+							// coll.Map(inst.Clone): the type-preserving method form of the same map
+							if len(x.Args) == 1 && isCloner(x.Args[0]) {
+								if se, ok := ast.Unparen(x.Fun).(*ast.SelectorExpr); ok && se.Sel.Name == "Map" {
+									if r, _ := accessorPath(info, se.X, roots); r != nil {
+										nUses++
+										return
+									}
 								}
 							}
 							// Map(coll, inst.Clone)
